@@ -763,8 +763,14 @@ func (h *c20Heap) value(s string) interface{} {
 func c20Objects(cd fpgo.CompData) []interface{} {
 	rv := reflect.New(reflect.TypeOf(cd)).Elem()
 	rv.Set(reflect.ValueOf(cd))
-	f := rv.FieldByName("objects")
-	return *(*[]interface{})(unsafe.Pointer(f.UnsafeAddr()))
+	// the field holding the composite values, found by its type (not by its unexported name)
+	want := reflect.TypeOf([]interface{}(nil))
+	for i := 0; i < rv.NumField(); i++ {
+		if f := rv.Field(i); f.Type() == want {
+			return *(*[]interface{})(unsafe.Pointer(f.UnsafeAddr()))
+		}
+	}
+	return nil
 }
 
 func (h *c20Heap) showObjs(objs []interface{}) string {
